@@ -299,6 +299,9 @@ def run_history(S, case):
                 fails.append(f"C16: the teardown command ran {len(tears)} times")
         elif setups or tears:
             fails.append("C16: lifecycle commands ran although none is configured")
+        empty = [(i, b) for i, b, js in sim.sbatch if not js]
+        if empty:
+            fails.append(f"C07: a batch without jobs was handed to the scheduler: {empty}")
         placed = [x for _, _, js in sim.sbatch for x in js]
         if len(placed) != len(set(placed)):
             dup = sorted({x for x in placed if placed.count(x) > 1})
